@@ -683,7 +683,7 @@ def select__subsequence(self: XPathFunction, context: ta.ContextType = None) \
     if self.context is not None:
         context = self.context
 
-    starting_loc = self.get_argument(context, 1, cls=NumericProxy)
+    starting_loc = self.get_argument(context, 1, required=True, cls=NumericProxy)
     if not math.isnan(starting_loc) and not math.isinf(starting_loc):
         starting_loc = float(round_number(starting_loc))
 
@@ -692,7 +692,7 @@ def select__subsequence(self: XPathFunction, context: ta.ContextType = None) \
             if starting_loc <= pos:
                 yield result
     else:
-        length = self.get_argument(context, 2, cls=NumericProxy)
+        length = self.get_argument(context, 2, required=True, cls=NumericProxy)
         if not math.isnan(length) and not math.isinf(length):
             length = float(round_number(length))
 
@@ -965,7 +965,10 @@ def evaluate__codepoints_to_string(
     value: Union[ta.ItemType, int]
     for value in self[0].select(context):
         if isinstance(value, UntypedAtomic):
-            value = int(value)
+            try:
+                value = int(value)
+            except ValueError as err:
+                raise self.error('FORG0001', err) from None
 
         if not isinstance(value, int):
             msg = "invalid type {} for codepoint {}".format(type(value), value)
